@@ -113,8 +113,8 @@ var vecSpec = map[string][]vecSpecChild{
 }
 
 // Structures whose content depends on their context are pinned under a context key (vecSpecKey): the batch item of a
-// request / of a response (Message Format §7.2) and the payloads per operation (Operations §4, request and response
-// tables). Only operations the vectors exercise are listed: every occurrence in the vectors validates the pin.
+// request / of a response (Message Format §7.2), the payloads per operation (Operations §4, request and response
+// tables) and the credential value per credential type (Objects §2.1.2). Only operations the vectors exercise are listed: every occurrence in the vectors validates the pin.
 // An element that is only conditionally allowed (Asynchronous Correlation Value: pending items) is never removed.
 func init() {
 	bin := func(name, hexval string) string { return `<` + name + ` type="ByteString" value="` + hexval + `"/>` }
@@ -140,6 +140,18 @@ func init() {
 			{"AsynchronousCorrelationValue", 10, false, bin("AsynchronousCorrelationValue", "A1B2C3D4")},
 			{"ResponsePayload", 10, true, ""},
 			{"MessageExtension", 10, false, ext},
+		},
+		"CredentialValue:UsernameAndPassword": {
+			{"Username", 10, true, ""},
+			{"Password", 10, false, txt("Password", "secret-2")},
+		},
+		"CredentialValue:Device": {
+			{"DeviceSerialNumber", 11, false, txt("DeviceSerialNumber", "serial-1")},
+			{"Password", 11, false, txt("Password", "secret-3")},
+			{"DeviceIdentifier", 11, false, txt("DeviceIdentifier", "device-1")},
+			{"NetworkIdentifier", 11, false, txt("NetworkIdentifier", "network-1")},
+			{"MachineIdentifier", 11, false, txt("MachineIdentifier", "machine-1")},
+			{"MediaIdentifier", 11, false, txt("MediaIdentifier", "media-1")},
 		},
 		"RequestPayload:Locate": {
 			{"MaximumItems", 10, false, `<MaximumItems type="Integer" value="5"/>`},
@@ -281,6 +293,14 @@ func vecSpecKey(root, n, parent *xnode) string {
 		if parent != nil {
 			for _, c := range parent.Children {
 				if c.Name == "Operation" {
+					return n.Name + ":" + c.Attrs["value"]
+				}
+			}
+		}
+	case "CredentialValue":
+		if parent != nil {
+			for _, c := range parent.Children {
+				if c.Name == "CredentialType" {
 					return n.Name + ":" + c.Attrs["value"]
 				}
 			}
